@@ -581,6 +581,42 @@ def handover(prog, run, only_methods=None):
             if isinstance(s, ast.Assign) and s.value is call and isinstance(s.targets[0], ast.Tuple):
                 unpack = [e.id if isinstance(e, ast.Name) else None for e in s.targets[0].elts]
                 direct = [(e, s) if isinstance(e, ast.Attribute) else None for e in s.targets[0].elts]
+        import copy as _copy
+        if ret_names is not None and unpack is None:
+            # no tuple unpacking: the returned tuple has a name (or none at all) and its items are stored by position:
+            # the stored value, expanded at the store, is <call of the routine>[i]
+            stored, seen_call = {}, False
+            for s in ast.walk(m.node):
+                if not (isinstance(s, ast.Assign) and len(s.targets) == 1):
+                    continue
+                t0, v0 = s.targets[0], s.value
+                pairs = list(zip(t0.elts, v0.elts)) if isinstance(t0, ast.Tuple) and isinstance(v0, ast.Tuple) and len(t0.elts) == len(v0.elts) else [(t0, v0)]
+                for t_, v_ in pairs:
+                    if not isinstance(t_, ast.Attribute):
+                        continue
+                    obj = astq.expr_at(m, s, _copy.deepcopy(t_.value))
+                    if astq.src(obj) != "self.result":
+                        continue
+                    val = astq.expr_at(m, s, _copy.deepcopy(v_))
+                    while isinstance(val, ast.Call) and isinstance(val.func, ast.Attribute) and val.func.attr in ("reshape", "copy", "ravel", "flatten") :
+                        val = val.func.value
+                    if isinstance(val, ast.Subscript) and isinstance(val.slice, ast.Constant) and isinstance(val.slice.value, int) and isinstance(val.value, ast.Call) \
+                            and astq.src(val.value.func).split(".")[-1] == callee.node.name and 0 <= val.slice.value < len(ret_names):
+                        seen_call = True
+                        if ret_names[val.slice.value]:
+                            stored[t_.attr] = (ret_names[val.slice.value], s)
+            if not seen_call:
+                run.ob("R-handover", m_outer.qual, "stores", None, "return tuple / unpacking not recognised", file=f, node=call)
+                continue
+            for role in ret_names:
+                if role is None:
+                    continue
+                if role not in stored:
+                    run.ob("R-handover", m_outer.qual, f"result.{role} stored", False, f"returned {role} is not stored in result.{role}", "not stored", file=f, node=call)
+                    continue
+                got, snode = stored[role]
+                run.ob("R-handover", m_outer.qual, f"result.{role} <- returned {role}", got == role, f"result.{role} receives the returned {got}", got, file=f, node=snode)
+            continue
         if ret_names is None or unpack is None:
             run.ob("R-handover", m_outer.qual, "stores", None, "return tuple / unpacking not recognised", file=f, node=call)
             continue
@@ -589,7 +625,6 @@ def handover(prog, run, only_methods=None):
             continue
         local2role = {u: r for u, r in zip(unpack, ret_names) if u and r}
         stored = {}
-        import copy as _copy
         # returned values unpacked straight into attributes: res.Fn, res.Xi, ... = callee(...)
         for d_, role in zip(direct, ret_names):
             if d_ is not None and role:
